@@ -20,6 +20,7 @@ func init() {
 			"R1": "guards (local + inherited from all call sites) of every non-refresh Update include: cfg.AllowPriorityTakeover == true; Get err == nil; Unmarshal(entry.Value(), &cur) == nil; NOT (cfg.Priority <= cur.Priority) [strict]; revision argument == Revision() of that Get's entry",
 			"R2": "a non-refresh Update is reachable (static calls and go statements) from the function that calls Watch",
 			"R3": "see C16-R1 (AllowPriorityTakeover && Priority <= 0 rejected)",
+			"R5": "the go statement in the watch handling that is guarded by the priority comparison and reaches the takeover: its guards are only literals over the event (entry, decoded payload), the claim, cfg.AllowPriorityTakeover / cfg.Priority, the recorded leader id and the context",
 			"R4": "see C06-R5: every `return nil` of the acquisition/takeover functions is guarded by the claim-set unit having returned true",
 		},
 	})
@@ -125,6 +126,59 @@ func checkC10(c *Ctx) {
 			}
 		}
 		c.check(ok, "R2", "takeover reachable from the watch handling", firstInstr(watchFn), "from %s: %v", shortFn(watchFn), ok)
+	}
+	// R5: on a watch event the decision to attempt a takeover depends on nothing but the event,
+	// the follower role and the priority comparison, so that a lost attempt is repeated on the
+	// incumbent's next heartbeat event
+	if watchFn != nil {
+		n5 := 0
+		own := m.cfgPath("Priority")
+		for _, sp := range m.Spawns() {
+			if !m.staticReach(watchFn, false)[topFunc(sp.Fn)] {
+				continue
+			}
+			reachesTakeover := false
+			for _, t := range sp.Targets {
+				for _, f := range takeoverFns {
+					if t == f || m.staticReach(t, true)[f] {
+						reachesTakeover = true
+					}
+				}
+			}
+			// the conditions inside the event handler (the function that receives the entry)
+			gs := append([]Lit{}, m.GuardsAt(sp.At)...)
+			gs = append(gs, m.controlConds(sp.At)...)
+			for f := sp.Fn; f.Parent() != nil; f = f.Parent() {
+				if mc := m.Sym.closureOf[f]; mc != nil {
+					gs = append(gs, m.GuardsAt(mc)...)
+					gs = append(gs, m.controlConds(mc)...)
+				}
+			}
+			if !reachesTakeover || !hasLit(gs, true, func(s *Sym) bool { return symMentions(s, own) }) && !hasLit(gs, false, func(s *Sym) bool { return symMentions(s, own) }) {
+				continue
+			}
+			n5++
+			var foreign []string
+			for _, l := range gs {
+				str := l.S.String()
+				switch {
+				case l.Derived:
+				case symMentions(l.S, own), strings.Contains(str, m.cfgPath("AllowPriorityTakeover")):
+				case m.isClaimLoadSym(l.S), m.isClaimValueSym(l.S):
+				case strings.Contains(str, "Entry.Value(") || strings.Contains(str, "param:entry") || strings.Contains(str, "encoding/json.Unmarshal("):
+				case strings.Contains(str, "(*sync/atomic.Value).Load(&"+m.path(m.LeaderID)+")") && strings.Contains(str, ".ID"):
+					// the "same incumbent as before" test: the first event of a new incumbent only records it
+				case strings.Contains(str, m.path(m.Ctx)) || strings.Contains(str, "Context.Err("):
+				default:
+					foreign = append(foreign, l.String())
+				}
+			}
+			c.check(len(foreign) == 0, "R5", "takeover attempt on a watch event depends only on the event, the role and the priorities in "+shortFn(sp.Fn), sp.At,
+				"other conditions at the spawn: %v (a remembered earlier decision, a rate limit or similar state keeps a lost attempt from being repeated while the same lower-priority incumbent lives)", foreign)
+		}
+		if n5 == 0 {
+			c.viol("R5", "takeover attempt on a watch event", firstInstr(watchFn), "no goroutine started from the watch handling under the priority comparison reaches the takeover")
+		}
 	}
 	// R4 (shared with C06-R5): a takeover that did not succeed is reported as a failure, so the
 	// caller keeps following and re-evaluates (the promptness mechanism relies on it)
